@@ -9,6 +9,7 @@ import JsonbModel.Proofs.PathFuel
 import JsonbModel.Proofs.SelectRefine9
 import JsonbModel.Proofs.ParserShape
 import JsonbModel.Proofs.SelFuel
+import JsonbModel.Proofs.SelectRefine10
 
 namespace Jsonb.Props
 open Jsonb Sel
@@ -109,6 +110,50 @@ theorem C08_select_mixed_refines (v₀ : JV) (hg : JV.goodTop v₀ = true) (jp :
             then (data ++ JV.encodeSpec (.arr items), offs ++ [(data ++ JV.encodeSpec (.arr items)).length])
             else (data ++ items.flatMap JV.encodeSpec, offs ++ ends data.length items)) :=
   select_mixed_refines v₀ hg jp hok hnp hsmall fuel data offs r h
+
+/-- **first / array / mixed modes are exact too** (completeness, error iff the path denotes nothing,
+no panic): for every fuel beyond a bound the selector answers exactly the first denoted item / the
+array of the denoted items / the mixed rule, or an error on a path that denotes nothing at any fuel -/
+theorem C08_select_first_exact (v₀ : JV) (hg : JV.goodTop v₀ = true) (jp : JsonPath) (hs : suppPaths jp = true)
+    (hhead : jp.head? ≠ some .current) (hnp : isPredicate jp = false) (data : Bytes) (offs : List Nat) :
+    ∃ F, ∀ fuel, F ≤ fuel →
+      (∃ items, Ev (fun f => Spec.evalPaths f v₀ none jp) items ∧
+        select jp .first (JV.encodeSpec v₀) data offs fuel
+          = .ok (data ++ (items.take 1).flatMap JV.encodeSpec, offs ++ ends data.length (items.take 1))) ∨
+      (∃ e, select jp .first (JV.encodeSpec v₀) data offs fuel = .err e ∧
+        ∀ f, Spec.evalPaths f v₀ none jp = none) :=
+  select_first_exact v₀ hg jp hs hhead hnp data offs
+theorem C08_select_array_exact (v₀ : JV) (hg : JV.goodTop v₀ = true) (jp : JsonPath) (hs : suppPaths jp = true)
+    (hhead : jp.head? ≠ some .current) (hnp : isPredicate jp = false)
+    (hsmall : (JV.encodeSpec v₀).length < 268435456) (data : Bytes) (offs : List Nat) :
+    ∃ F, ∀ fuel, F ≤ fuel →
+      (∃ items r, Ev (fun f => Spec.evalPaths f v₀ none jp) items ∧
+        select jp .array (JV.encodeSpec v₀) data offs fuel = .ok r ∧
+        (items.length < 536870912 →
+          r = (data ++ JV.encodeSpec (.arr items), offs ++ [(data ++ JV.encodeSpec (.arr items)).length]))) ∨
+      (∃ e, select jp .array (JV.encodeSpec v₀) data offs fuel = .err e ∧
+        ∀ f, Spec.evalPaths f v₀ none jp = none) :=
+  select_array_exact v₀ hg jp hs hhead hnp hsmall data offs
+theorem C08_select_mixed_exact (v₀ : JV) (hg : JV.goodTop v₀ = true) (jp : JsonPath) (hs : suppPaths jp = true)
+    (hhead : jp.head? ≠ some .current) (hnp : isPredicate jp = false)
+    (hsmall : (JV.encodeSpec v₀).length < 268435456) (data : Bytes) (offs : List Nat) :
+    ∃ F, ∀ fuel, F ≤ fuel →
+      (∃ items r, Ev (fun f => Spec.evalPaths f v₀ none jp) items ∧
+        select jp .mixed (JV.encodeSpec v₀) data offs fuel = .ok r ∧
+        (items.length < 536870912 →
+          r = if items.length > 1
+              then (data ++ JV.encodeSpec (.arr items), offs ++ [(data ++ JV.encodeSpec (.arr items)).length])
+              else (data ++ items.flatMap JV.encodeSpec, offs ++ ends data.length items))) ∨
+      (∃ e, select jp .mixed (JV.encodeSpec v₀) data offs fuel = .err e ∧
+        ∀ f, Spec.evalPaths f v₀ none jp = none) :=
+  select_mixed_exact v₀ hg jp hs hhead hnp hsmall data offs
+theorem C08_select_no_panic_any_mode (v₀ : JV) (hg : JV.goodTop v₀ = true) (jp : JsonPath) (hs : suppPaths jp = true)
+    (hhead : jp.head? ≠ some .current) (fuel : Nat) (data : Bytes) (offs : List Nat) (s : String) :
+    select jp .first (JV.encodeSpec v₀) data offs fuel ≠ .panic s ∧
+    select jp .array (JV.encodeSpec v₀) data offs fuel ≠ .panic s ∧
+    select jp .mixed (JV.encodeSpec v₀) data offs fuel ≠ .panic s :=
+  ⟨select_first_no_panic v₀ hg jp hs hhead fuel data offs s, select_array_no_panic v₀ hg jp hs hhead fuel data offs s,
+   select_mixed_no_panic v₀ hg jp hs hhead fuel data offs s⟩
 
 /-- **predicate paths** give one boolean document, in every mode, and push no offset -/
 theorem C08_select_predicate_refines (v₀ : JV) (hg : JV.goodTop v₀ = true) (jp : JsonPath) (hok : okPaths jp = true)
